@@ -101,6 +101,17 @@ func c09Grid(delta int64) []gridPoint {
 			pts = append(pts, gridPoint{from: n.from, until: n.until, t: uint64(t.v), untilClass: n.c, tClass: t.c})
 		}
 	}
+	// a default until' of exactly zero (from = -D, until absent) is a bound like any other: passed at every later anchoring time
+	if delta > 0 {
+		for _, t := range []uint64{1, 6, uint64(c09A), 1 << 40} {
+			pts = append(pts, gridPoint{from: -delta, until: 0, t: t, untilClass: "neg-from-default-until-zero", tClass: fmt.Sprint("t", t)})
+		}
+		pts = append(pts, gridPoint{from: -delta, until: 0, t: 0, untilClass: "neg-from-default-until-zero", tClass: "zero"})
+	}
+	// no bounds at all: effective at every anchoring time, up to the largest the field can hold
+	for _, t := range []uint64{1 << 62, 1<<63 - 1, 1 << 63, 1<<63 + 5, 1<<64 - 1} {
+		pts = append(pts, gridPoint{from: 0, until: 0, t: t, untilClass: "none", tClass: "huge"})
+	}
 	// anchoring time 0 is an anchoring time like any other
 	for _, n := range []struct {
 		from, until int64
